@@ -314,25 +314,24 @@ def run(ctx, R, tier):
     if len(recvs) != 3:
         raise AnalysisError("recv_stub: expected three recv calls (prefix, header rest, body), found %d" % len(recvs))
     body_nodes = ctx.node_of(rs, recvs[2])
-    filt = None
-    for n in rcfg.nodes:
-        if n.kind == "test" and isinstance(n.ast, ast.If):
-            for atom in ast.walk(n.ast.test):
-                if isinstance(atom, ast.Compare) and len(atom.ops) == 1 and isinstance(atom.ops[0], ast.NotIn) and \
-                        unparse(atom.comparators[0]) == "accepted_msgtypes" and unparse(atom.left).endswith(".type"):
-                    filt = n
+    def type_accepted(atom, pol):
+        if isinstance(atom, ast.Compare) and len(atom.ops) == 1 and unparse(atom.comparators[0]) == "accepted_msgtypes" and unparse(atom.left).endswith(".type"):
+            return (isinstance(atom.ops[0], ast.NotIn) and pol is False) or (isinstance(atom.ops[0], ast.In) and pol is True)
+        return False
+
+    def no_filter(atom, pol):
+        return pol is False and unparse(atom) == "accepted_msgtypes"
+    filt = [n for n in rcfg.nodes if n.kind == "test" and any(type_accepted(a, pl) or type_accepted(a, not pl) for a, pl in facts_of(n.ast.test, True) + facts_of(n.ast.test, False)
+                                                             if isinstance(a, ast.Compare)) or
+            (n.kind == "test" and any(isinstance(x, ast.Compare) and isinstance(x.ops[0], (ast.NotIn, ast.In)) and unparse(x.comparators[0]) == "accepted_msgtypes" for x in ast.walk(n.ast.test)))]
+    filt = filt[0] if filt else None
     ok = filt is not None
     why = "no `msg.type not in accepted_msgtypes` test in recv_stub"
     if ok:
-        ok = all(rcfg.dominates(filt, b) for b in body_nodes)
-        why = "the type filter does not precede the read of the message body"
-        if ok:
-            true_succ = [e.dst for e in filt.succ if e.kind == "true"]
-            reach = rcfg.reachable(true_succ, edge_ok=no_exc)
-            if any(b.id in reach for b in body_nodes) or rcfg.exit.id in reach:
-                ok = False
-                why = "a message of a type that is not accepted is still read/returned"
-    R.check(ok, "C03-R7", "recv_stub|filter-before-body", "unaccepted message types raise before the body is read", rs.loc(filt.ast) if filt else rs.loc(), why)
+        ok = all(rcfg.guarded(b_, lambda e: edge_implies_any(e, [type_accepted, no_filter])) for b_ in body_nodes) and \
+            rcfg.guarded(rcfg.exit, lambda e: edge_implies_any(e, [type_accepted, no_filter]))
+        why = "a message of a type that is not accepted is still read/returned (the type filter does not precede the read of the body)"
+    R.check(ok, "C03-R7", "recv_stub|filter-before-body", "unaccepted message types raise before the body is read", rs.loc(filt.ast) if filt is not None else rs.loc(), why)
     arg = recv_calls[0].args[1] if len(recv_calls[0].args) > 1 else None
     ok = isinstance(arg, (ast.List, ast.Tuple)) and len(arg.elts) == 1 and ctx.resolves_to_object(arg.elts[0], f, "Pyro5.protocol.MSG_RESULT")
     R.check(ok, "C03-R7", "_pyroInvoke|accepts-only-MSG_RESULT", "the client accepts exactly [MSG_RESULT] as a call reply", f.loc(recv_calls[0]),
